@@ -168,13 +168,21 @@ def r4(run: Run, rt):
                 run.bad('C13.R4', f'error-table[{cp.label}]/{t!r}', 'not-an-excel-error',
                         f'the error table lists {t!r}, which is not one of Excel\'s error values {list(ERROR_STRINGS)}', loc=cp.loc(fn))
         # every error-looking string returned by a helper is in the table
+        # (keyed by the string, not by the helper: moving the code that returns it into another helper is not a new defect)
+        returned = {}
         for name, m in sorted(cp.members.items()):
             for r in returned_exprs(m):
                 for c in ast.walk(r):
                     if isinstance(c, ast.Constant) and isinstance(c.value, str) and re.fullmatch(r'\s*#[A-Z/0-9]+[!?]?\s*', c.value):
-                        run.check(c.value in table, 'C13.R4', f'{name} returns {c.value!r}', 'unknown-error-string',
-                                  f'{name} returns {c.value!r}, which the error table does not list: IFERROR does not contain it',
-                                  fact='in the error table', loc=cp.loc(c))
+                        returned.setdefault(c.value, []).append((name, c))
+        for es, sites in sorted(returned.items()):
+            names = sorted({n for n, _ in sites})
+            if es in table:
+                run.ok('C13.R4', f'{es!r} returned[{cp.label}]', f'in the error table (returned by {", ".join(names)[:80]})', loc=cp.loc(sites[0][1]))
+            else:
+                run.bad('C13.R4', f'{es!r} returned by runtime helpers', 'unknown-error-string',
+                        f'{", ".join(names)} return{"s" if len(names) == 1 else ""} {es!r}, which the error table does not list: IFERROR '
+                        f'does not contain it', loc=cp.loc(sites[0][1]))
 
 
 def r5(run: Run, src, g, em, rt):
@@ -206,13 +214,18 @@ def r5(run: Run, src, g, em, rt):
                     ok_stride = it.args[0].value == 0 and it.args[2].value == 2
             if idx is None:
                 continue
-            for iff in [n for n in ast.walk(loop) if isinstance(n, ast.If)]:
-                t = iff.test
-                if isinstance(t, ast.Subscript) and isinstance(t.value, ast.Name) and t.value.id == lst and \
-                        isinstance(t.slice, ast.Name) and t.slice.id == idx:
-                    rets = [s for s in iff.body if isinstance(s, ast.Return)]
-                    if rets and isinstance(rets[0].value, ast.Subscript) and ast.unparse(rets[0].value) == f'{lst}[{idx} + 1]':
-                        ok_pair = True
+            # every value returned from inside the loop is the element at i + 1, returned exactly when the element at i is true
+            from ..paths import parent_map as _pm, path_conditions as _pc
+            from .common import flat_conditions as _flat
+            _par = _pm(fn)
+            rets_in = [s for s in ast.walk(loop) if isinstance(s, ast.Return) and s.value is not None]
+            pair_ok = []
+            for r_ in rets_in:
+                conds_ = [(ast.unparse(t), pol) for t, pol in _flat(_pc(fn, r_, _par))]
+                val_ok = ast.unparse(r_.value).replace(' ', '') in (f'{lst}[{idx}+1]', f'{lst}[1+{idx}]')
+                pair_ok.append(val_ok and (f'{lst}[{idx}]', True) in conds_)
+            if rets_in and all(pair_ok):
+                ok_pair = True
         tail = [s for s in fn.body if isinstance(s, ast.Return)]
         ok_default = bool(tail) and isinstance(tail[-1].value, ast.Constant) and tail[-1].value.value == '#N/A' and fn.body[-1] is tail[-1]
         if not (ok_stride or ok_pair or ok_default):
